@@ -1012,7 +1012,8 @@ class MatlabWrapper(CheckMixin, FormatMixin):
 
         if serialize and self.use_boost_serialization:
             method_text += WrapperTemplate.matlab_deserialize.format(
-                class_name=namespace_name + '.' + instantiated_class.name,
+                class_name=".".join(instantiated_class.namespaces()[1:] +
+                                    [instantiated_class.name]),
                 wrapper=self._wrapper_name(),
                 id=self._update_wrapper_id(
                     (namespace_name, instantiated_class, 'string_deserialize',
@@ -1826,7 +1827,7 @@ class MatlabWrapper(CheckMixin, FormatMixin):
         return WrapperTemplate.class_serialize_method.format(
             wrapper=self._wrapper_name(),
             wrapper_id=wrapper_id,
-            class_name=namespace_name + '.' + class_name)
+            class_name=".".join(inst_class.namespaces()[1:] + [class_name]))
 
     def wrap_collector_function_serialize(self,
                                           class_name,
